@@ -12,11 +12,13 @@ from fractions import Fraction
 import z3
 
 from . import seqs, theory
+from . import containers   # containers
 from .values import (BoundBuiltin, ClassV, EnumV, ExcV, ExtV, FlagV, FuncV, InterpError, LambdaV,
                      ModV, Opaque, SObj, SymFloat, Unsupported, as_int, as_z3bool, as_z3int,
                      as_z3real, is_boollike, is_fraclike, is_intlike, is_sym_bool, is_sym_int,
                      is_sym_real, is_z3, simp)
 
+_MUTATORS = {'append', 'extend', 'pop', 'setdefault', 'update', 'add', 'remove', 'discard', 'clear', 'insert', 'sort', 'reverse'}
 FP64_M = 52
 FP64_EONES = 0x7ff
 
@@ -35,6 +37,8 @@ class Intrinsics:
             return v is None
         if isinstance(t, ClassV):
             ci = t.info
+            if isinstance(v, containers.SymKey):   # containers
+                return containers.key_isinstance(P, v, ci)
             if isinstance(v, SObj):
                 return P.index.is_subclass(v.cls, ci)
             if isinstance(v, (EnumV, FlagV)):
@@ -121,6 +125,11 @@ class Intrinsics:
         raise Unsupported(f'external call {name}')
 
     def call_bound(self, P, name, recv, args, kwargs):
+        if name.startswith('sym'):   # containers
+            return containers.call_bound(P, name, recv, args, kwargs)
+        if P.loop_guard is not None and name.split('.')[0] in ('list', 'dict', 'set') \
+                and name.split('.')[1] in _MUTATORS:   # containers
+            containers.guard_concrete(P, recv)
         key = name.replace('.', '_')
         m = getattr(self, 'm_' + key, None)
         if m is None:
@@ -628,11 +637,42 @@ class Intrinsics:
             return b ** e
         return theory.ipow(as_z3int(b), as_z3int(e))
 
+    def _ghost_args(self, args):
+        zs = []
+        for a in args:
+            if isinstance(a, containers.SymKey):   # containers
+                zs.append(a.term)
+            elif isinstance(a, SObj):   # containers: identity of a named input object
+                zs.append(containers.obj_key(a))
+            elif is_boollike(a):
+                zs.append(as_z3bool(a))
+            else:
+                zs.append(as_z3int(a))
+        return zs
+
     def s_ghost(self, P, name, *args):
-        """uninterpreted ghost function (e.g. the next RNG draw); int arguments -> int"""
-        zs = [as_z3int(a) for a in args]
-        f = z3.Function(f'ghost_{name}', *([z3.IntSort()] * (len(zs) + 1)))
+        """uninterpreted ghost function (e.g. the next RNG draw); int / bool / key arguments -> int"""
+        zs = self._ghost_args(args)
+        f = z3.Function(f'ghost_{name}', *([z.sort() for z in zs] + [z3.IntSort()]))
         return f(*zs)
+
+    def s_ghost_pred(self, P, name, *args):
+        """uninterpreted ghost predicate; int / bool / key arguments -> bool"""
+        zs = self._ghost_args(args)
+        f = z3.Function(f'ghost_{name}', *([z.sort() for z in zs] + [z3.BoolSort()]))
+        return f(*zs)
+
+    def s_forall_keys(self, P, kname, fn):
+        return containers.forall_keys(P, kname, fn)
+
+    def s_forall_ints(self, P, fn):
+        return containers.forall_ints(P, fn)
+
+    def s_seq_at(self, P, seq, i):
+        return containers.seq_at(P, seq, i)
+
+    def s_seq_len(self, P, seq):
+        return containers.seq_len(P, seq)
 
     def s_implies(self, P, a, b):
         a, b = P.truthy(a), P.truthy(b)
@@ -685,6 +725,8 @@ class Intrinsics:
     def s_cls_name(self, P, v):
         if isinstance(v, seqs.KINDS):
             return seqs.cls_name(P, v)
+        if isinstance(v, containers.SymKey):   # containers
+            return v.kname
         if isinstance(v, SObj):
             return v.cls.name
         if isinstance(v, (EnumV, FlagV)):
